@@ -537,10 +537,22 @@ func (vc *FuncVC) execBinOp(st *State, reach Term, ins *ssa.BinOp) {
 	x, y := vc.scalar(ins.X), vc.scalar(ins.Y)
 	if isString(xt) {
 		switch ins.Op {
-		case token.EQL:
-			vc.vals[ins] = &Val{T: Eq(x, y), GoType: rt}
-		case token.NEQ:
-			vc.vals[ins] = &Val{T: Ne(x, y), GoType: rt}
+		case token.EQL, token.NEQ:
+			eq := Eq(x, y)
+			// against a constant: equal length and equal bytes (exact). Only for plain strings: the values of a named
+			// string type such as Rounder are compared as codes, in the code and in the contracts alike.
+			_, xNamed := ins.X.Type().(*types.Named)
+			_, yNamed := ins.Y.Type().(*types.Named)
+			if xNamed || yNamed {
+			} else if c, isC := ins.Y.(*ssa.Const); isC && c.Value != nil && c.Value.Kind() == constant.String && len(constant.StringVal(c.Value)) <= 32 {
+				eq = vc.strEqConst(x, constant.StringVal(c.Value))
+			} else if c, isC := ins.X.(*ssa.Const); isC && c.Value != nil && c.Value.Kind() == constant.String && len(constant.StringVal(c.Value)) <= 32 {
+				eq = vc.strEqConst(y, constant.StringVal(c.Value))
+			}
+			if ins.Op == token.NEQ {
+				eq = Not(eq)
+			}
+			vc.vals[ins] = &Val{T: vc.define("streq", eq), GoType: rt}
 		case token.ADD:
 			r := vc.freshVal("strcat", rt)
 			vc.assume(Eq(vc.strLen(r.T), Add(vc.strLen(x), vc.strLen(y))))
